@@ -910,3 +910,17 @@ def raised_in(exc, *function_names):
     """does the traceback of exc pass through one of these functions?"""
     import traceback
     return any(fr.name in function_names for fr in traceback.extract_tb(exc.__traceback__))
+
+
+
+def replay_verdict(ctx):
+    """print what a replay found; the case counts as failing iff something fails that is not a
+    listed known finding (same rule as the check's exit code)"""
+    for sig, detail, _r in ctx.oracle_fails:
+        print("property fails:", sig, detail)
+    seen = set()
+    for f, sig in ctx.known_hits:
+        if sig not in seen:
+            seen.add(sig)
+            print("known finding %s also shows on this case: %s" % (f.get("id"), sig))
+    return not ctx.oracle_fails
